@@ -8,7 +8,7 @@ using namespace vh;
 
 int64_t vh_case_count(const std::string &tier, uint64_t)
 {
-    return tier == "thorough" ? 8000 : 800;
+    return tier == "thorough" ? 80000 : 6000;
 }
 
 static std::string classify(const std::string &diff)
